@@ -43,26 +43,36 @@ Fixpoint all_some {A} (l : list (option A)) : option (list A) :=
   | Some x :: t => match all_some t with Some r => Some (x :: r) | None => None end
   end.
 
+(* the value of one selected member: None = the operation fails, Some None = the resolver leaves the key out *)
+Definition member_value (rec : node -> list isel -> option json) (n : node) (sel : isel) : option (option json) :=
+  match sel with ISel _ _ _ _ sub =>
+    match F n sel with
+    | RInvalid => None
+    | RAbsent => Some None
+    | RLeaf j => Some (Some j)
+    | RNode c => match rec c sub with Some j => Some (Some j) | None => None end
+    | RNodes cs => match all_some (map (fun c => rec c sub) cs) with Some js => Some (Some (JArr js)) | None => None end
+    end
+  end.
+
+Definition sel_alias (sel : isel) : string := match sel with ISel a _ _ _ _ => a end.
+
+Fixpoint build (value : isel -> option (option json)) (sels : list isel) (acc : list (string * json)) : option json :=
+  match sels with
+  | [] => Some (JObj acc)
+  | sel :: rest =>
+      if strict && (match assoc (sel_alias sel) acc with Some _ => true | None => false end) then None else
+      match value sel with
+      | None => None
+      | Some v => build value rest (match v with Some j => assoc_set (sel_alias sel) j acc | None => acc end)
+      end
+  end.
+
 Fixpoint exec (fuel : nat) (n : node) (sels : list isel) : option json :=
   if negb (live n) then Some JNull else
   match fuel with
   | 0 => None
-  | S f =>
-      (fix go (sels : list isel) (acc : list (string * json)) : option json :=
-         match sels with
-         | [] => Some (JObj acc)
-         | (ISel a nm incl tn sub) as sel :: rest =>
-             if strict && (match assoc a acc with Some _ => true | None => false end) then None else
-             match F n sel with
-             | RInvalid => None
-             | RAbsent => go rest acc
-             | RLeaf j => go rest (assoc_set a j acc)
-             | RNode c => match exec f c sub with Some j => go rest (assoc_set a j acc) | None => None end
-             | RNodes cs => match all_some (map (fun c => exec f c sub) cs) with
-                            | Some js => go rest (assoc_set a (JArr js) acc)
-                            | None => None end
-             end
-         end) sels []
+  | S f => build (member_value (exec f) n) sels []
   end.
 End Exec.
 
